@@ -371,6 +371,9 @@ func warmUp() {
 	} {
 		lispsim.Eval(lispsim.Read(src), w.scope)
 	}
+	w3 := newWorldRaw(1) // only an :around method: call-next-method ends in no-next-method
+	lispsim.Eval(lispsim.Read(w3.source(Op{K: "def", Qual: "around", Specs: []int{0}, ID: 1})), w3.scope)
+	lispsim.Eval(lispsim.Read(fmt.Sprintf("(%s %s)", w3.gf, w3.insts[0])), w3.scope)
 	w2 := newWorldRaw(2)
 	lispsim.Eval(lispsim.Read(fmt.Sprintf("(%s %s %s)", w2.gf, w2.insts[0], w2.insts[1])), w2.scope)
 }
